@@ -63,7 +63,7 @@ FIELD_OPS = [
     "dangling_input", "dup_output", "empty_name", "drop_type", "shuffle_nodes", "self_cycle", "bad_dtype", "bad_attr_type", "bad_dims", "ext_location",
     "ext_numbers", "dup_initializer", "dup_function", "dangling_output", "dup_graph_input", "dangling_device", "deep_nesting", "dup_value_info",
     "tensor_metadata", "missing_opset", "ref_attr", "sparse", "quant", "negative_dims", "string_tensor", "input_is_output", "sub_output_outer", "sub_output_outer", "sub_input_outer", "sub_init_outer", "output_is_initializer", "output_is_initializer",
-    "function_identity", "function_identity", "func_inner_shadow", "func_inner_shadow", "dup_keyed", "dup_keyed", "storage_field", "storage_field", "quant", "dim_expr",
+    "function_identity", "function_identity", "func_inner_shadow", "func_inner_shadow", "dup_keyed", "dup_keyed", "storage_field", "storage_field", "quant", "dim_expr", "bad_utf8_attr", "bad_utf8_attr",
 ]  # fmt: skip
 _IGNORED_PREFIXES = tuple(p for p in {sys.prefix, sys.base_prefix, "/repo", "/verif", "/venv", "/root/.pyenv", "/usr/lib/python3", "/usr/lib/python3.12", "/proc/self"} if p)
 
@@ -540,6 +540,22 @@ def damage_fields(p: onnx.ModelProto, opsl: list) -> None:
                 t.data_type = 1
                 t.dims.append(1)
                 t.raw_data = b"\x00\x00\x80?"
+        elif kind == "bad_utf8_attr" and n is not None:
+            # byte strings that are not UTF-8 where text is expected: a STRINGS / STRING attribute (bytes fields in the
+            # proto), on a node or as the default of a function attribute
+            bad = [b"caf\xe9", b"\xff\xfe", b"ok", b"\xed\xb3\xbf", b"\x80"]
+            at = n.attribute.add()
+            at.name = "texts" if c % 2 else "text"
+            if c % 2:
+                at.type = onnx.AttributeProto.STRINGS
+                at.strings.extend([bad[(a + i) % len(bad)] for i in range(1 + c % 3)])
+            else:
+                at.type = onnx.AttributeProto.STRING
+                at.s = bad[a % len(bad)]
+            if p.functions and c % 5 == 0:
+                fa = p.functions[a % len(p.functions)].attribute_proto.add()
+                fa.CopyFrom(at)
+                fa.name = "ftexts"
         elif kind == "string_tensor" and g.initializer:
             t = g.initializer.add()
             t.name = "strs"
